@@ -248,7 +248,7 @@ fn hoist_position_lf(s: &[u8]) -> (r: Option<usize>)
     ensures r matches Some(k) ==> k < s@.len() && s@[k as int] == 10u8 && forall|i: int| 0 <= i < k ==> s@[i] != 10u8,
         r is None ==> forall|i: int| 0 <= i < s@.len() ==> s@[i] != 10u8,
 { s.iter().position(|&b| b == b'\n') }
-// (only used by a tree repaired with findings/comment_eol_fix.diff)
+// (only used by a tree repaired with findings/comment_eol_cr_fix.diff)
 #[verifier::external_body]
 fn hoist_position_lf_cr(s: &[u8]) -> (r: Option<usize>)
     ensures r matches Some(k) ==> k < s@.len() && (s@[k as int] == 10u8 || s@[k as int] == 13u8) && forall|i: int| 0 <= i < k ==> s@[i] != 10u8 && s@[i] != 13u8,
